@@ -6,15 +6,17 @@
    What is proved, and what is not.  The hash is sha256 of a TEXT.  Proved: which inputs the text
    has; that on well-formed definitions the text determines the definition (so every single edit -
    rename, id change, field rename, type-text change, insertion, deletion, REORDERING,
-   signal <-> message <-> struct - changes the text), except for one recorded shape; that the four
+   signal <-> message <-> struct - changes the text); that the four
    emitted literals denote the same number, first32(sha256 text).  NOT proved, for any technique:
    that different texts have different 32-bit digests prefixes (pigeonhole) - that is the SHA-256
    collision assumption, named in the evidence.
    Stated, not a Coq theorem (checked structurally in client.py and on captured frames by
-   vlib/props/C13.py): Client.send_message writes header.version := type_hash; send_signal and
-   forward_message do not write it. *)
+   vlib/props/C13.py): Client.send_message writes header.version := type_hash of the message object;
+   Client.send_signal writes header.version := type_hash of the definition registered for the signal
+   type, for every DEFINED type (an id with no registered definition leaves version 0);
+   forward_message sends the header it is given unchanged. *)
 From Coq Require Import ZArith NArith List Bool String Ascii Lia.
-From Defs Require Import Lib.Sha256 Model.HashText Proofs.HashProofs.
+From Defs Require Import Gen.Guards Lib.Sha256 Model.HashText Proofs.HashProofs.
 Import ListNotations.
 Open Scope string_scope. Open Scope list_scope.
 
@@ -54,26 +56,23 @@ Proof.
     rewrite (raw_canon _ W), raw_pre_lines; reflexivity.
 Qed.
 
-(* FULL STATEMENT (refuted below):  forall d1 d2, wf d1 -> wf d2 -> raw d1 = raw d2 -> d1 = d2.
-   Proved with the decidable exclusion [lookalike]: a message whose only field is called `fields`. *)
-Theorem C13_injective_partial : forall d1 d2, wf d1 = true -> wf d2 = true ->
-  lookalike d1 = false -> lookalike d2 = false -> raw d1 = raw d2 -> d1 = d2.
-Proof. exact raw_inj. Qed.
-
-(* `fields: S` (reuse the fields of S) and `fields: {fields: S}` (one field called fields, of type S)
-   are different definitions with the same text, hence the same version *)
-Theorem C13_injective_refuted : exists d1 d2, wf d1 = true /\ wf d2 = true /\ d1 <> d2 /\
-  raw d1 = raw d2 /\ hash32 d1 = hash32 d2.
+(* well-formed = names are identifiers, no field carries a name add_fields reserves (the regenerated
+   list, which contains `fields`), type texts contain no newline *)
+Theorem C13_wf_excludes_reserved_field_names :
+  In "fields" reserved_field_names /\
+  forall n i fn ty rest, str_mem fn reserved_field_names = true -> wf (DMessage n i (FDict ((fn, ty) :: rest))) = false.
 Proof.
-  exists (DMessage "M" 5 (FReuse "S")), (DMessage "M" 5 (FDict [("fields", "S")])).
-  split; [vm_compute; reflexivity|]. split; [vm_compute; reflexivity|]. split; [discriminate|].
-  split; vm_compute; reflexivity.
+  split; [vm_compute; tauto|]. intros n i fn ty rest H. unfold wf, wf_fspec. cbn [forallb]. unfold wf_field. cbn [fst].
+  rewrite H. cbn [negb]. rewrite andb_false_r. cbn [andb]. apply andb_false_r.
 Qed.
 
+(* the hashed text determines the definition, distinguishing signal from message from struct *)
+Theorem C13_injective : forall d1 d2, wf d1 = true -> wf d2 = true -> raw d1 = raw d2 -> d1 = d2.
+Proof. exact raw_inj_wf. Qed.
+
 (* every single edit changes the hashed text *)
-Theorem C13_every_edit_changes_text : forall d1 d2, wf d1 = true -> wf d2 = true ->
-  lookalike d1 = false -> lookalike d2 = false -> d1 <> d2 -> raw d1 <> raw d2.
-Proof. intros d1 d2 W1 W2 L1 L2 N H. exact (N (raw_inj d1 d2 W1 W2 L1 L2 H)). Qed.
+Theorem C13_every_edit_changes_text : forall d1 d2, wf d1 = true -> wf d2 = true -> d1 <> d2 -> raw d1 <> raw d2.
+Proof. intros d1 d2 W1 W2 N H. exact (N (raw_inj_wf d1 d2 W1 W2 H)). Qed.
 
 (* ... in particular reordering two different fields, and turning a message into a signal *)
 Theorem C13_reordering_changes_text : forall n i a b pre post,
@@ -84,18 +83,22 @@ Proof.
   assert (W2 : wf (DMessage n i (FDict (pre ++ b :: a :: post))) = true).
   { simpl in *. rewrite andb_true_iff in *. destruct W as [A B]. split; [exact A|].
     rewrite forallb_app in *. simpl in *. rewrite !andb_true_iff in *. tauto. }
-  assert (L : forall x y, lookalike (DMessage n i (FDict (pre ++ x :: y :: post))) = false).
-  { intros x y. simpl. destruct pre as [|[p1 p2] [|q r]]; simpl; try reflexivity; destruct x; reflexivity. }
   apply C13_every_edit_changes_text; auto. intros E. inversion E as [E1].
   apply app_inv_head in E1. inversion E1. auto.
 Qed.
 Theorem C13_signal_message_struct_differ : forall n i f, wf (DMessage n i f) = true ->
-  lookalike (DMessage n i f) = false ->
   raw (DSignal n i) <> raw (DMessage n i f) /\ raw (DStruct n f) <> raw (DMessage n i f).
 Proof.
-  intros n i f W L. pose proof W as W'. simpl in W'. apply andb_true_iff in W'. destruct W' as [A B].
+  intros n i f W. pose proof W as W'. simpl in W'. apply andb_true_iff in W'. destruct W' as [A B].
   split; apply C13_every_edit_changes_text; auto; try discriminate; simpl; rewrite A; auto.
 Qed.
+
+(* the former look-alike: `fields: S` against a single field called `fields` of type S give the same
+   text, but the second is no longer a definition the parser accepts *)
+Example C13_ex_former_lookalike :
+  raw (DMessage "M" 5 (FReuse "S")) = raw (DMessage "M" 5 (FDict [("fields", "S")])) /\
+  wf (DMessage "M" 5 (FReuse "S")) = true /\ wf (DMessage "M" 5 (FDict [("fields", "S")])) = false.
+Proof. split; [|split]; vm_compute; reflexivity. Qed.
 
 (* over all sixteen nibble values the lower-case digit and its upper-case form denote the nibble *)
 Theorem C13_hex_case_all_nibbles : forall n, (n < 16)%N ->
